@@ -906,10 +906,10 @@ Proof.
   unfold jrel in Hj. rewrite join_pattern_jels in Hj. injection Hj as ->. exact Hp.
 Qed.
 
-Theorem parser_outputs_ssel d cs t : sel_resource d t = true ->
+Theorem parser_outputs_ssel d cs t : sel_resource d t = true -> last_comment_ok t = true ->
   exists t', parse (render cs t) = Done (t', []) /\ ssel_resource d t' = true /\ map join_entry t' = t.
 Proof.
-  intros Ht. destruct (parse_render_sel_split d cs t Ht) as (t' & E & Hrel). exists t'. split; [exact E|]. split.
+  intros Ht Hlast. destruct (parse_render_sel_split d cs t Ht Hlast) as (t' & E & Hrel). exists t'. split; [exact E|]. split.
   - unfold sel_resource in Ht. rewrite <- (ml_resource_g (eokd d)) in Ht.
     apply (g_resource_rel (ml_pok (eokd d)) (ssel_pok d) (srel (goodd d)) t' t (srel_ssel_pok d) Hrel Ht).
   - apply jrel_entries. apply (rel_entries_mono (srel (goodd d)) jrel t' t); [intros x y [H _]; exact H | exact Hrel].
